@@ -29,7 +29,9 @@
 #define C10_SHA1_K(t) ((t) <= 19 ? 0x5a827999u : (t) <= 39 ? 0x6ed9eba1u : (t) <= 59 ? 0x8f1bbcdcu : 0xca62c1d6u)
 
 /* W_t for 16 <= t <= 79 from the earlier schedule words in array W */
-#define C10_SHA1_W(W, t) C10_SHA_ROTL((W)[(t) - 3] ^ (W)[(t) - 8] ^ (W)[(t) - 14] ^ (W)[(t) - 16], 1)
+/* value form: operands W_{t-3}, W_{t-8}, W_{t-14}, W_{t-16} */
+#define C10_SHA1_WV(w3, w8, w14, w16) C10_SHA_ROTL(((uint32_t)(w3)) ^ ((uint32_t)(w8)) ^ ((uint32_t)(w14)) ^ ((uint32_t)(w16)), 1)
+#define C10_SHA1_W(W, t) C10_SHA1_WV((W)[(t) - 3], (W)[(t) - 8], (W)[(t) - 14], (W)[(t) - 16])
 /* T of step t */
 #define C10_SHA1_T(t, a, b, c, d, e, wt) \
   ((uint32_t)(C10_SHA_ROTL(a, 5) + C10_SHA1_F(t, b, c, d) + ((uint32_t)(e)) + C10_SHA1_K(t) + ((uint32_t)(wt))))
